@@ -22,6 +22,23 @@ class SendFail(Exception):
     """scripted failure of the server's send callable"""
 
 
+class BaseBoom(BaseException):
+    """scripted KeyboardInterrupt/GeneratorExit-like failure: NOT an Exception"""
+
+
+# fault kinds (coq/C05/Model.v fault): 1 Exception, 2 BaseException, 3 asyncio.CancelledError
+# raised from inside, 4 (send only) the server cancels the app task while it is parked in send()
+SCRIPTED = (StreamBoom, SendFail, BaseBoom, asyncio.CancelledError)
+
+
+def raise_fault(kind, exc_cls):
+    if kind == 1:
+        raise exc_cls()
+    if kind == 2:
+        raise BaseBoom()
+    raise asyncio.CancelledError()
+
+
 class ProtocolError(Exception):
     """the app violated the server interface (detected by a monitor)"""
 
@@ -40,7 +57,7 @@ class Script:
         if self.chunks:
             return self.chunks.pop(0)
         if self.raises:
-            raise StreamBoom()
+            raise_fault(int(self.raises), StreamBoom)
         raise stop
 
 
@@ -75,6 +92,16 @@ def make_wsgi_stream(kind, chunks, raises, has_close):
 
 def make_asgi_stream(kind, chunks, raises, has_close):
     sc = Script(chunks, raises)
+    if kind == 2:
+        # an async GENERATOR: no close() attribute (only aclose()), so falcon has nothing to call
+        async def agen():
+            while True:
+                try:
+                    item = sc.step(_End())
+                except _End:
+                    return
+                yield item
+        return agen(), sc
     if kind == 0:
         class F:
             async def read(self, size=-1):
@@ -159,7 +186,8 @@ def serve_wsgi(app, env):
             if type(chunk) is not bytes:
                 raise ProtocolError('chunk of type %r' % type(chunk))
             chunks.append(chunk)
-    except StreamBoom:
+    except SCRIPTED:
+        # whatever ended the iteration, a conforming server still calls close()
         raised = True
     finally:
         if hasattr(result, 'close'):
@@ -180,6 +208,7 @@ async def serve_asgi(app, method, fail_at):
     events = []
     state = {'n': 0, 'received': False}
     never = asyncio.Event()
+    parked = asyncio.Event()
 
     async def receive():
         if not state['received']:
@@ -190,8 +219,12 @@ async def serve_asgi(app, method, fail_at):
     async def send(ev):
         n = state['n']
         state['n'] += 1
-        if fail_at is not None and n == fail_at:
-            raise SendFail()
+        if fail_at is not None and n == fail_at[0]:
+            if fail_at[1] == 4:
+                # the server is stuck (client gone / timeout) and will cancel the app task
+                parked.set()
+                await never.wait()
+            raise_fault(fail_at[1], SendFail)
         t = ev.get('type')
         if t == 'http.response.start':
             if type(ev.get('status')) is not int:
@@ -210,10 +243,28 @@ async def serve_asgi(app, method, fail_at):
         else:
             raise ProtocolError('event type %r' % t)
     raised = False
-    try:
-        await app(scope, receive, send)
-    except (StreamBoom, SendFail):
-        raised = True
+    if fail_at is not None and fail_at[1] == 4:
+        task = asyncio.ensure_future(app(scope, receive, send))
+        waiter = asyncio.ensure_future(parked.wait())
+        await asyncio.wait([task, waiter], return_when=asyncio.FIRST_COMPLETED)
+        if not task.done():
+            task.cancel()
+        waiter.cancel()
+        try:
+            await task
+        except SCRIPTED:
+            raised = True
+    else:
+        try:
+            await app(scope, receive, send)
+        except SCRIPTED:
+            raised = True
+    # tasks the app left behind (the SSE disconnect watcher when the app was interrupted)
+    stray = [t for t in asyncio.all_tasks() if t is not asyncio.current_task() and not t.done()]
+    for t in stray:
+        t.cancel()
+    if stray:
+        await asyncio.gather(*stray, return_exceptions=True)
     return events, raised
 
 
@@ -261,20 +312,20 @@ def gen_cell(rng, asgi):
     stream = None
     if rng.random() < 0.45:
         chunks = [c for c in rng.choice(CHUNKSETS)]
-        kind = rng.randint(0, 1)
+        kind = rng.randint(0, 2) if asgi else rng.randint(0, 1)
         if asgi and rng.random() < 0.2:
             chunks = list(chunks)
             chunks.insert(rng.randint(0, len(chunks)), None)
         if not asgi and kind == 1:
             pass
-        stream = [kind, chunks, rng.random() < 0.25, rng.random() < 0.7]
+        stream = [kind, chunks, rng.choice([0, 0, 0, 0, 1, 2, 3]), rng.random() < 0.7 and kind != 2]
     sse = None
     if asgi and rng.random() < 0.12:
         sse = [rng.choice([None, {'data': b'x'}, {'text': 'héllo', 'event': 'e1'}, {'json': {'a': 1}, 'event_id': '7'}])
                for _ in range(rng.randint(0, 3))]
     fail_at = None
-    if asgi and sse is None and rng.random() < 0.3:
-        fail_at = rng.randint(0, 5)
+    if asgi and rng.random() < 0.3:
+        fail_at = [rng.randint(0, 5), rng.choice([1, 2, 3, 4])]
     return {'asgi': int(asgi), 'method': rng.choice(['GET', 'GET', 'HEAD', 'POST']), 'status': form,
             'text': text, 'data': data, 'media': media, 'stream': stream, 'sse': sse,
             'clen': rng.choice(CLENS), 'ctype': ctype, 'wrapper': int(rng.random() < 0.5),
@@ -412,7 +463,7 @@ class Env:
         stream = []
         if c['stream'] is not None:
             kind, chunks, raises, has_close = c['stream']
-            stream = [[kind, [[] if ch is None else [ch] for ch in chunks], raises, has_close]]
+            stream = [[min(kind, 1), [[] if ch is None else [ch] for ch in chunks], int(raises), has_close]]
         sse = []
         if c['sse'] is not None and c['asgi']:
             sse = [[(falcon.asgi.SSEvent() if e is None else falcon.asgi.SSEvent(**e)).serialize() for e in c['sse']]]
@@ -595,7 +646,7 @@ def gen_step_cell(rng, asgi):
     c.update(text=None, data=None, media=None, ctype=None, sse=None, steps=steps,
              mw_from=rng.randint(0, len(steps)))
     if c['fail_at'] is not None and c['stream'] is None:
-        c['fail_at'] = rng.choice([None, 0, 1, 2])
+        c['fail_at'] = rng.choice([None, [0, 1], [1, 3], [2, 4], [1, 2]])
     return c
 
 
@@ -624,16 +675,31 @@ def fault_matrix():
     base = {'method': 'GET', 'status': [0, 200], 'text': None, 'data': None, 'media': None, 'sse': None,
             'clen': None, 'ctype': None, 'wrapper': 0, 'custom_resp': 0}
     for chunks in ([], [b'a'], [b'a', b'bc'], [b'a', b'bc', b'd'], [b'a', None, b'd'], [b'a', b'', b'd']):
-        for kind in (0, 1):
-            for raises in (False, True):
+        for kind in (0, 1, 2):
+            for raises in (0, 1, 2, 3):
                 for has_close in (True, False):
-                    for fail_at in [None] + list(range(0, len(chunks) + 3)):
-                        yield dict(base, asgi=1, stream=[kind, list(chunks), raises, has_close], fail_at=fail_at)
-                    if None not in chunks:
+                    if kind == 2 and has_close:
+                        continue
+                    yield dict(base, asgi=1, stream=[kind, list(chunks), raises, has_close], fail_at=None)
+                    for idx in range(0, len(chunks) + 3):
+                        for fk in (1, 2, 3, 4):
+                            yield dict(base, asgi=1, stream=[kind, list(chunks), raises, has_close], fail_at=[idx, fk])
+                    if None not in chunks and kind != 2:
                         for wrapper in (0, 1):
                             for method in ('GET', 'HEAD'):
                                 yield dict(base, asgi=0, method=method, wrapper=wrapper,
                                            stream=[kind, list(chunks), raises, has_close], fail_at=None)
+
+
+def sse_fault_matrix():
+    """SSE emitters under every send fault point and kind (event sequence must stay valid)"""
+    base = {'asgi': 1, 'method': 'GET', 'status': [0, 200], 'text': None, 'data': None, 'media': None, 'stream': None,
+            'clen': None, 'ctype': None, 'wrapper': 0, 'custom_resp': 0}
+    for evs in ([], [{'data': b'x'}], [{'data': b'x'}, None, {'text': 'y'}]):
+        yield dict(base, sse=list(evs), fail_at=None)
+        for idx in range(0, len(evs) + 3):
+            for fk in (1, 2, 3, 4):
+                yield dict(base, sse=list(evs), fail_at=[idx, fk])
 
 
 def status_matrix():
@@ -667,6 +733,7 @@ def main(ctx):
     quick = ctx.tier == 'quick'
     run_cells(ctx, model, env, list(status_matrix()), 'status-matrix')
     run_cells(ctx, model, env, list(fault_matrix()), 'fault-matrix')
+    run_cells(ctx, model, env, list(sse_fault_matrix()), 'sse-fault-matrix')
     run_cells(ctx, model, env, list(step_matrix()), 'step-matrix')
     ns = 5000 if quick else 60000
     run_cells(ctx, model, env, [gen_step_cell(ctx.rng, ctx.rng.random() < 0.5) for _ in range(ns)], 'random-steps')
